@@ -55,6 +55,7 @@ type dec struct {
 	altModel sym.Model
 	imported bool
 	label    string
+	recordOnly bool
 }
 
 // DecSnap is a worker-independent snapshot of a decision (for job prefixes).
@@ -63,6 +64,7 @@ type DecSnap struct {
 	N, Cur int
 	Taken  bool
 	Aux    uint64
+	RecordOnly bool
 }
 
 type InputRec struct {
@@ -309,7 +311,7 @@ func (in *Interp) branchX(cond *sym.Term, aux uint64, noAlt bool, label string) 
 		if !d.taken {
 			t = c.Not(cond)
 		}
-		if !d.forced || d.imported {
+		if (!d.forced || d.imported) && !d.recordOnly {
 			in.pushPC(t)
 		}
 		if in.pos == len(in.trace) {
@@ -473,6 +475,42 @@ func (in *Interp) assume(cond *sym.Term) {
 		in.Stats.MaybeFeasible++
 	}
 	in.pushPC(cond)
+}
+
+// mustBeFalse reports whether cond is infeasible under the path condition
+// (a fork-free query; false also when unknown).
+func (in *Interp) mustBeFalse(cond *sym.Term) bool {
+	if cond.IsConst() {
+		return cond.IsFalse()
+	}
+	if in.inReplay() {
+		// decided identically on the first visit; the result is recorded as a forced decision
+		return !in.branchX(cond, 0, false, "mustbefalse")
+	}
+	if v, ok := in.evalModel(cond); ok && v == 1 {
+		// feasible: do not fork, just answer "not known to be false"; record as a
+		// pseudo-decision so that replays take the same route
+		return !in.branchRecordOnly(cond, true)
+	}
+	r, _ := in.check(cond)
+	return !in.branchRecordOnly(cond, r != sym.Unsat)
+}
+
+// branchRecordOnly records a query outcome in the trace (no path-condition change).
+func (in *Interp) branchRecordOnly(cond *sym.Term, val bool) bool {
+	d := &dec{cond: cond, taken: val, forced: true, recordOnly: true}
+	in.trace = append(in.trace, d)
+	in.pos++
+	return val
+}
+
+// addLemma adds a theory-valid fact to the path condition (no feasibility check).
+func (in *Interp) addLemma(t *sym.Term, what string) {
+	if t.IsTrue() {
+		return
+	}
+	in.note("trusted lemma: " + what)
+	in.pushPC(t)
 }
 
 func (in *Interp) assumeNote(cond *sym.Term, why string) {
@@ -656,7 +694,7 @@ func (in *Interp) snapshotPrefix(n int) []DecSnap {
 	out := make([]DecSnap, n)
 	for i := 0; i < n; i++ {
 		d := in.trace[i]
-		out[i] = DecSnap{Choice: d.choice, N: d.n, Cur: d.cur, Taken: d.taken, Aux: d.aux}
+		out[i] = DecSnap{Choice: d.choice, N: d.n, Cur: d.cur, Taken: d.taken, Aux: d.aux, RecordOnly: d.recordOnly}
 	}
 	return out
 }
@@ -664,7 +702,7 @@ func (in *Interp) snapshotPrefix(n int) []DecSnap {
 func (in *Interp) loadPrefix(p []DecSnap) {
 	in.trace = in.trace[:0]
 	for _, s := range p {
-		in.trace = append(in.trace, &dec{choice: s.Choice, n: s.N, cur: s.Cur, taken: s.Taken, aux: s.Aux, imported: true, forced: false, otherDone: true})
+		in.trace = append(in.trace, &dec{choice: s.Choice, n: s.N, cur: s.Cur, taken: s.Taken, aux: s.Aux, imported: true, forced: false, otherDone: true, recordOnly: s.RecordOnly})
 	}
 }
 
